@@ -2,7 +2,7 @@
    This is what the OCaml driver calls; each command evaluates model functions on a case that the
    Python harness also runs on the rebuilt implementation. *)
 From OptreeModel Require Export Wire Flatten Unflatten Spec Ops Registry Pickle Accessor.
-From OptreeModel Require Ravel Dataclass Typing Faults Depth Alias Conc ArraySpec Construct Walk PrefixErr PrefixArr UpToArr JoinArr.
+From OptreeModel Require Ravel Dataclass Typing Faults Depth Alias Conc ArraySpec Construct Walk PrefixErr PrefixArr UpToArr JoinArr PathsArr.
 
 Definition bad : sexp := SL [SI 2].   (* undecodable input: a harness error, never a verdict *)
 
@@ -47,7 +47,9 @@ Definition cmd_inspect (c : cfg) (o : obj) : sexp :=
            enc_keys (node_entries n);
            SL (map (fun i => enc_res enc_key (st_entry t i)) idx);
            enc_sspec (ss_one_level s);
-           enc_bool (wf_stree t) ]
+           enc_bool (wf_stree t);
+           (* the array-level Paths walk (PathsArr.v) on the node array itself *)
+           enc_res (fun ps => SL (map enc_path ps)) (PathsArr.arr_paths sp) ]
     end
   end.
 
